@@ -232,6 +232,54 @@ ASAN_CASES = [
 ]
 
 
+# "every inverse temperature": deterministic low-temperature scenarios, run in every tier.  What matters is beta*|E_ground|
+# (the Boltzmann factors exp(-beta*E) leave binary64 beyond 709.78 upwards and 745.13 downwards, so the weights have to be
+# taken relative to the ground energy): ~300 (control), ~800, ~1200, ~2900, ~4600, ground energy of either sign.  A positive
+# ground energy needs a constant in H, which the scenario language only has through c c^+ = 1 - n.  Atoms: non-degenerate
+# and doubly degenerate ground states; dimers: off-diagonal components between the sites.  The oracle's own weights are
+# EDSpec.weights (relative to the lowest eigenvalue), the bound driver's likewise: nothing on the reference side overflows.
+CCDAG_A = "term 2 %s 0 A 0 0 1 A 0 0\nterm 2 %s 0 A 0 1 1 A 0 1\n"        # v (c_up c^+_up + c_dn c^+_dn) = v (2 - n_A)
+LOWTEMP = [
+    # (family, scenario, modes, build, pairs, intended beta*|E_ground|)
+    ("lowT-atom", "site A 1 2\naddCoulombS A 4 -3\nsymm default\nbeta 100\n", 2, "real", [(0, 0), (1, 1), (0, 1)], 300),
+    ("lowT-atom", "site A 1 2\naddCoulombS A 1 -1.5\naddMagnetization A 0.25\nsymm default\nbeta 400\n", 2, "real", [(0, 0), (1, 1), (1, 0)], 800),
+    ("lowT-dimer", "site A 1 2\nsite B 1 2\naddCoulombS A 4 -2.5\naddCoulombS B 4 -2\naddHopping4 A B 0.5\nsymm default\nbeta 1000\n", 4, "real",
+     [(0, 0), (3, 3), (0, 2), (2, 0), (1, 3), (0, 1)], 4600),
+    ("lowT-atom-positive", "site A 1 2\naddCoulombS A 2 0.5\n" + CCDAG_A % ("3", "3") + "symm default\nbeta 400\n", 2, "real",
+     [(0, 0), (1, 1), (0, 1)], 1200),
+    ("lowT-dimer-positive", "site A 1 2\nsite B 1 2\naddCoulombS A 1 1\naddLevel B 0.75\naddHopping4 A B 0.5\n" + CCDAG_A % ("2", "2") +
+     "symm default\nbeta 1000\n", 4, "real", [(0, 0), (2, 2), (0, 2), (3, 1), (1, 0)], 2900),
+]
+LOWTEMP_THOROUGH = [
+    ("lowT-atom-positive", "site A 1 2\naddCoulombS A 2 0.5\n" + CCDAG_A % ("3", "3") + "symm default\nbeta 100\n", 2, "real",
+     [(0, 0), (1, 1), (0, 1)], 300),
+    ("lowT-dimer", "site A 1 2\nsite B 1 2\naddCoulombS A 4 -2.5\naddCoulombS B 4 -2\naddHopping4 A B 0.5\nsymm ignore\nbeta 200\n", 4, "real",
+     [(0, 0), (3, 3), (0, 2), (2, 0), (1, 3), (0, 1)], 920),
+    ("lowT-dimer", "site A 1 2\nsite B 1 2\naddCoulombS A 2 -3\naddLevel B -2.5\naddHopping4 A B 1\naddHopping8 A B 0.5 0 0 0 1\nsymm default\nbeta 10000\n",
+     4, "real", [(0, 0), (0, 1), (0, 2), (0, 3), (3, 0), (2, 2)], 90000),
+    ("lowT-dimer-cplx", "site A 1 2\nsite B 1 2\naddCoulombS A 4 -2.5\naddCoulombS B 4 -2\naddHopping4 A B 0.5,0.25\nsymm default\nbeta 1000\n", 4, "complex",
+     [(0, 0), (3, 3), (0, 2), (2, 0), (1, 3)], 4600),
+    ("lowT-atom", "site A 1 2\naddCoulombS A 1 -1.5\naddMagnetization A 0.25\nsymm ignore\nbeta 2000\n", 2, "real", [(0, 0), (1, 1), (1, 0)], 4000),
+]
+
+
+def low_temperature(tier):
+    out = []
+    for (fam, text, n, variant, pairs, _) in LOWTEMP + ([] if tier == "quick" else LOWTEMP_THOROUGH):
+        out.append((fam, text, n, re.search(r'(?m)^symm (\S+)', text).group(1), variant, pairs))
+    return out
+
+
+def note_low_temperature(chk, fam, text, r):
+    """evidence that the low-temperature scenarios are where they are meant to be: beta*E_ground as the library reports it"""
+    try:
+        e0 = min(min(v) for v in r.eigs().values())
+        chk.extra.setdefault("low_temperature", []).append({"family": fam, "scenario": L.canon(text), "E_ground": e0,
+                                                            "beta*E_ground": r.beta() * e0})
+    except Exception as ex:
+        chk.tie_broken("low-temperature bookkeeping", "%s: %r" % (L.canon(text), ex))
+
+
 def run(chk):
     quick = chk.tier == "quick"
     ok, log = chk.prove(["props/Properties_C17_loops.vo", "extract/Extract_C01.vo", "extract/Extract_ED.vo"])
@@ -257,7 +305,7 @@ def run(chk):
     ns = L.MATS_QUICK if quick else L.MATS_THOROUGH
     scs = L.scenarios(chk.rng, chk.tier)
     worst = 0.0
-    work = list(FIXED) + [(f, t, n, sy, v, None) for (f, t, n, sy, v) in scs]
+    work = list(FIXED) + low_temperature(chk.tier) + [(f, t, n, sy, v, None) for (f, t, n, sy, v) in scs]
     for (fam, text, nmodes, symm, variant, fixed_pairs) in work:
         pairs = fixed_pairs or L.index_pairs(chk.rng, nmodes, chk.tier)
         negl = {}
@@ -267,6 +315,8 @@ def run(chk):
             except pv.BuildError as ex:
                 chk.tie_broken("h_c01 build (%s)" % variant, ex.what)
         fails, r = end_to_end(chk, fam, text, nmodes, symm, variant, pairs, zs, ns, negl_of=lambda i, j: negl.get((i, j), 0.0))
+        if fam.startswith("lowT") and r.dump:
+            note_low_temperature(chk, fam, text, r)
         for f in fails:
             if f[0] == "crash":
                 chk.violation("crash: %s | %s" % (L.canon(text), variant), "the documented workflow crashed or threw: %s" % (f[1],),
